@@ -331,6 +331,7 @@ Fixpoint rad_loop (f : fstate) (teq : bool) (tbl : list (ptr * ptr)) (cap : Z) (
       e <- tbl_get tbl cap i 2 ;;
       let '(s, en) := e in
       let btr := toS64 ((fst en - fst s) * BLK + (snd en - snd s) - 16) in
+      if fx_rad cfg && (btr <? 0) then Err E_DISK_TAG else          (* repair 15 *)
       let btr := if nread + btr >? total then total - nread else btr in
       if btr =? 0 then Ok (nread, room, acc) else
       d <- read_data_chunk f s fb teq btr 0 btr room 7 ;;
@@ -357,7 +358,11 @@ Definition read_all_data (f : fstate) (h : node_header) (mtype : bytes) (cap : Z
   else
     tbl <- read_dct f (nh_data h) (nh_nchunks h) ;;
     '(nread, room, d) <- rad_loop f teq tbl (nh_nchunks h) (Z.to_nat (nh_nchunks h)) 0 total 0 mb fb cap [] ;;
-    if nread <? total then (if total - nread >? room then OOBW 7 else Ok (E_INCOMPLETE_DATA, d)) else Ok (0, d).
+    if nread <? total then
+      (* memset(data_pointer, 0, ..): legacy counts the missing bytes of the file, repair 15 those of memory *)
+      let z := if fx_rad cfg then Z.quot (toS64 ((total - nread) * mb)) fb else total - nread in
+      if z mod W64 >? room then OOBW 7 else Ok (E_INCOMPLETE_DATA, d)
+    else Ok (0, d).
 
 (* ---------------------------------------------------------------- links *)
 Definition is_LK (h : node_header) : bool := (nth 0 (nh_dtype h) 0 =? 76) && (nth 1 (nh_dtype h) 0 =? 75).
@@ -720,5 +725,17 @@ Definition wit_header8 : bytes :=
 Definition wit_sizes : bytes :=
   wit_one wit_header8 [68] (mk_node [68] [76; 68] tI4 0 0 blank_ptr 1 1 1 (0, 1130))
     (enc_data_chunk wa (0, 1154) [1; 0; 0; 0; 2; 0; 0; 0]).
+
+(* 15: two data chunks of 2 bytes for a node whose element is 8 bytes in the file (header: sizeof(int) = 8) and 4 in
+   memory: 4 bytes are missing, the zero fill of 4 starts 2 bytes before the end of the caller's 4-byte buffer *)
+Definition wit_radset : bytes :=
+  wit_one wit_header8 [68] (mk_node [68] [76; 68] tI4 0 0 blank_ptr 1 1 2 (0, 1130))
+    (enc_dct wa (0, 1194) [((0, 1198), (0, 1216)); ((0, 1220), (0, 1238))]                      (* 1130 .. 1198 *)
+     ++ enc_data_chunk wa (0, 1216) [1; 0] ++ enc_data_chunk wa (0, 1238) [2; 0]).             (* 1198, 1220 .. 1242 *)
+(* 15 (and 13): the second data chunk ends one byte before its data starts *)
+Definition wit_radneg : bytes :=
+  wit_one wit_header [68] (mk_node [68] [76; 68] tI4 0 0 blank_ptr 1 2 2 (0, 1130))
+    (enc_dct wa (0, 1194) [((0, 1198), (0, 1218)); ((0, 1222), (0, 1237))]
+     ++ enc_data_chunk wa (0, 1218) [1; 0; 0; 0] ++ enc_data_chunk wa (0, 1242) [2; 0; 0; 0]).
 
 Definition walk_events (r : walk_result) : list ev := match r with WOk _ evs => evs | WOpenFail _ => [] end.
